@@ -4,6 +4,88 @@ from ..mir import peel, walk, show, same_expr
 from . import c19, c02
 
 
+from .. import effects
+from . import c08
+
+SET_POS = "stream::Tag::set_pos"
+
+
+def _rewrites_by(facts, body, closure_path, c_expr):
+    """does this closure call Tag::set_pos(t, t.pos() / c) with c the same self field as c_expr ?"""
+    cb = facts.by_path.get(closure_path)
+    if cb is None:
+        return False
+    from ..mir import self_field_path
+    want = self_field_path(c_expr)
+    env = None
+    for bb, t in cb.calls_to(SET_POS):
+        e = peel(cb.operand_expr(t["args"][1]), through_try=False)
+        if e.k == "bin" and e.op == "Div":
+            a = peel(e.a, through_try=False)
+            d = peel(e.b, through_try=False)
+            if a.k == "call" and a.q == "stream::Tag::pos":
+                # the divisor is an upvar: find the captured operand in the parent
+                if d.k == "field" and d.owner and d.owner.startswith("closure:"):
+                    for blk in body.blocks:
+                        for st in blk["stmts"]:
+                            if st["k"] == "assign" and st["rv"]["k"] == "agg" and st["rv"].get("closure") == closure_path:
+                                ops = st["rv"]["ops"]
+                                if d.idx < len(ops):
+                                    cap = self_field_path(body.operand_expr(ops[d.idx]))
+                                    if cap and want and cap == want:
+                                        return True
+                c1, c2 = peel(d, through_try=False), peel(c_expr, through_try=False)
+                if c1.k == "const" and c2.k == "const" and c1.v == c2.v:
+                    return True
+    return False
+
+
+def rule_r3(facts, col):
+    """rate changers re-base forwarded tag positions: where a hand-written work() commits produce(a / c, tags) for
+    consume(a) with a non-empty tag list, the list has had every position divided by c (or c == 1 on that path)"""
+    for body in facts.impl_bodies(BLOCK_TRAIT, "work"):
+        if body.from_derive:
+            continue
+        cons = [(bb, t) for bb, t in body.calls_to(effects.CONSUME)]
+        prods = [(bb, t) for bb, t in body.calls_to(effects.PRODUCE)]
+        for cb, ct in cons:
+            a = body.operand_expr(ct["args"][1])
+            for pb, pt in prods:
+                b = peel(body.operand_expr(pt["args"][1]), through_try=False)
+                if not (b.k == "bin" and b.op == "Div" and same_expr(b.a, a)):
+                    continue
+                te = peel(body.operand_expr(pt["args"][2]))
+                if te.k in ("const",) or (te.k == "agg" and te.ak == "array" and not te.args) or (te.k == "cast" and peel(te.a).k == "agg"):
+                    continue   # no tags forwarded
+                key = "%s:produce(a/c, tags)" % body.q
+                c = b.b
+                # c == 1 on this path?
+                one = False
+                for f in facts_at(body, pb):
+                    if f[0] == "Eq" and ((same_expr(f[1], c) and c08._is_const(f[2], 1)) or (same_expr(f[2], c) and c08._is_const(f[1], 1))):
+                        one = True
+                    if f[0] == "IntEq" and f[2] == 1 and same_expr(f[1], c):
+                        one = True
+                if one:
+                    col.ok("C12.R3", key + "@c==1", body.where(pb), "ratio is 1 on this path: positions unchanged")
+                    continue
+                # a dominating for_each/map over the same list whose closure divides positions by c
+                ok = False
+                for fb, ft in body.calls():
+                    nm = ft["f"].get("name")
+                    if nm not in ("for_each", "map", "retain_mut") or not body.dominates(fb, pb):
+                        continue
+                    for x in walk(body.operand_expr(ft["args"][-1])):
+                        if x.k == "agg" and x.ak == "closure" and _rewrites_by(facts, body, x.q, c):
+                            ok = True
+                if ok:
+                    col.ok("C12.R3", key, body.where(pb), "forwarded tags re-based by pos / c before the commit")
+                else:
+                    col.bad("C12.R3", key, body.where(pb),
+                            "work() forwards its input tag list to produce(a / c, ..) without dividing the tag positions by the same "
+                            "ratio c: tags land c times too far into the output (or are dropped as beyond the commit)", {})
+
+
 def run(ctx):
     facts = ctx.facts("default")
     fam = ctx.facts("family")
@@ -11,6 +93,8 @@ def run(ctx):
     c02.rule_r4(facts, ctx, rule_id="C12.R1b")
     c19.rule_work(fam, ctx, only={"C12.R2"})
     c19.rule_work(facts, ctx, only={"C12.R2"})
+    rule_r3(facts, ctx)
+    ctx.floor("C12.R3", 2, "FirFilter: deci == 1 path and decimating path")
     ctx.floor("C12.R1", 1, "tag insertion in the commit body")
     ctx.floor("C12.R2", 54 * 3, "3 tag-path obligations x (36 family + 18 in-crate sync blocks)")
     ctx.explain("C12 (partial): (R1) the stream stores only tags with pos < n, so every pass-through block that hands its read-window "
